@@ -87,6 +87,18 @@ Flat(e) ==
                             IF Len(es) = 1 THEN es[1] ELSE [op |-> e.op, es |-> es]
     [] OTHER -> e
 
+\* the grouping the builder really produces (tree/peg.go addList): when the FIRST operand of a choice (sequence) is
+\* itself a choice (sequence) node - a parenthesised one, a multi-character literal, the two cases of a
+\* case-insensitive letter - the list is continued in that node; later operands stay nested.  Grouping is
+\* immaterial for the language and for the events of plain parsers, but the -switch analysis counts alternatives.
+RECURSIVE Shape(_)
+Shape(e) ==
+  CASE e.op \in UnaryOps -> [e EXCEPT !.a = Shape(e.a)]
+    [] e.op \in ListOps  -> LET es == [i \in 1..Len(e.es) |-> Shape(e.es[i])] IN
+                            IF es[1].op = e.op THEN [op |-> e.op, es |-> es[1].es \o Tail(es)] ELSE [op |-> e.op, es |-> es]
+    [] OTHER -> e
+ShapeG(G) == [G EXCEPT !.rules = [i \in 1..Len(G.rules) |-> [name |-> G.rules[i].name, body |-> Shape(G.rules[i].body)]]]
+
 (* ---------- references, actions, captures -------------------------------- *)
 RECURSIVE Refs(_), RefsL(_)
 RefsL(es) == IF es = <<>> THEN {} ELSE Refs(Head(es)) \cup RefsL(Tail(es))
